@@ -102,6 +102,10 @@ impl Constraints {
         !constraint.is_flag ==> r is Ok && final(constr).constraints@ == old(constr).constraints@.push(flagged(*constraint)),   //# unflagged_constraint_requeued_once_flagged [C03]
 //@@ END
 
+// ---- /repo functions with ASSUMED contracts in this unit (bodies pinned; Name::is_superset_of is PROVED in unit NAMESUP) ----------
+//@@ ASSUME src/check/name/mod.rs | impl IsSuperSet<Name> for Name | is_superset_of
+//@@ ASSUME src/check/constrain/unify/finished.rs | impl Finished | push_ty
+//@@ ASSUME src/check/constrain/unify/function.rs | free | unify_function
 // ---- unify_type (C06: a failed supertype test is never accepted; C19: every rejection has a diagnostic) -------------
 pub uninterp spec fn name_is_temporary(n: Name) -> bool;
 pub uninterp spec fn name_contains_temp(n: Name) -> bool;
